@@ -1,13 +1,16 @@
 """C12 - broadcast arithmetic follows NumPy semantics (DESIGN 4/C12)."""
 LEVEL = "model_checking"
-RULE = ("P4: Apalache proves, for ALL natural shapes (no bound), that the classifier model accepts exactly the NumPy-compatible shape pairs "
-        "(spec/BroadcastCompat.tla); P1: for every shape pair with rows, cols in 1..K (quick K=4: 256 pairs, thorough K=6: 1296 pairs) x 4 operators TLC "
-        "checks that the classifier-and-loops model of broadcast.rs (BCode) equals the NumPy rule (BSpec), all ten leaves "
-        "covered; P2: every case is emitted with the exact expected matrix (rationals for division) and replayed through "
-        "Matrix.Matrix, Matrix.Vector (right operand a single row) and Vector.Matrix in all four ownership forms - value "
-        "cases compare shape and every entry bit-exactly, incompatible pairs must panic; P3: random shapes up to "
-        "16x16 (quick) / 40x40 (thorough) with random integer entries recorded and validated by TLC (Trace_Broadcast). "
-        "Case class = (operand kinds, ownership form, operator, classifier leaf, compatible/incompatible).")
+RULE = ("P4: Apalache proves, for ALL natural shapes (no bound), that the classifier model accepts exactly the NumPy-"
+        "compatible shape pairs (spec/BroadcastCompat.tla); P1: for every shape pair with rows, cols in 1..K (quick "
+        "K=4: 256 pairs, thorough K=6: 1296 pairs) x 4 operators TLC checks that the classifier-and-loops model of "
+        "broadcast.rs (BCode) equals the NumPy rule (BSpec), all ten leaves covered; P2: every case is emitted with the"
+        " exact expected matrix (rationals for division) and replayed through Matrix.Matrix, Matrix.Vector (right "
+        "operand a single row) and Vector.Matrix in all four ownership forms - value cases compare shape and every "
+        "entry bit-exactly, incompatible pairs must panic; every second compatible case again with IEEE special values "
+        "in the operands (0/0, inf - inf, 0 x inf, NaN, signed zeros, overflow): no panic, entry-wise IEEE results; P3:"
+        " random shapes up to 16x16 (quick) / 40x40 (thorough) with random integer entries recorded and validated by "
+        "TLC (Trace_Broadcast). Case class = (operand kinds, ownership form, operator, classifier leaf, "
+        "compatible/incompatible).")
 ASSUMPTIONS = ["integer-valued entries: + - x exact, the quotient of two integers is the correctly rounded IEEE quotient",
                "a Vector operand is a single row (1 x n), as the property states"]
 EXHAUSTIVE = True
